@@ -99,11 +99,13 @@ def v1Load (c : CryptoOps) (master : Bytes) (fs : Files) (p : V1Purpose) (id : B
 
 /-! ### v2 -/
 
-/-- decimal rendering of a sequence number (`%d`) -/
-def decimal (n : Nat) : Bytes :=
-  if h : n < 10 then [UInt8.ofNat (48 + n)] else decimal (n / 10) ++ [UInt8.ofNat (48 + n % 10)]
-termination_by n
-decreasing_by omega
+/-- decimal rendering of a sequence number (`%d`), structurally recursive on a fuel bound so that the
+kernel can evaluate it -/
+def decimalFuel : Nat → Nat → Bytes
+  | 0, _ => []
+  | f + 1, n => if n < 10 then [UInt8.ofNat (48 + n)] else decimalFuel f (n / 10) ++ [UInt8.ofNat (48 + n % 10)]
+
+def decimal (n : Nat) : Bytes := decimalFuel (n + 1) n
 
 inductive V2Kind | privateKey | symmetricKey
 deriving DecidableEq, Repr
@@ -178,24 +180,26 @@ theorem Files.get_copy_dst (fs : Files) (src dst d : Bytes) (h : fs.get src = so
 /-- digits -/
 def undecimal (b : Bytes) : Nat := b.foldl (fun acc d => 10 * acc + (d.toNat - 48)) 0
 
-theorem undecimal_decimal (n : Nat) : undecimal (decimal n) = n := by
-  induction n using Nat.strongRecOn with
-  | _ n ih =>
-    unfold decimal
+theorem undecimal_decimalFuel : ∀ (f n : Nat), n < f → undecimal (decimalFuel f n) = n
+  | 0, n, h => by omega
+  | f + 1, n, h => by
+    unfold decimalFuel
     split
-    · next h =>
+    · next h10 =>
       have : (UInt8.ofNat (48 + n)).toNat = 48 + n := by
         simp [UInt8.toNat_ofNat']; omega
       simp only [undecimal, List.foldl_cons, List.foldl_nil, this]
       omega
-    · next h =>
-      have h10 : n / 10 < n := by omega
-      have := ih (n / 10) h10
+    · next h10 =>
+      have ih := undecimal_decimalFuel f (n / 10) (by omega)
       have hd : (UInt8.ofNat (48 + n % 10)).toNat = 48 + n % 10 := by
         simp [UInt8.toNat_ofNat']; omega
-      simp only [undecimal, List.foldl_append, List.foldl_cons, List.foldl_nil] at this ⊢
-      rw [this, hd]
+      simp only [undecimal, List.foldl_append, List.foldl_cons, List.foldl_nil] at ih ⊢
+      rw [ih, hd]
       omega
+
+theorem undecimal_decimal (n : Nat) : undecimal (decimal n) = n :=
+  undecimal_decimalFuel (n + 1) n (by omega)
 
 theorem decimal_inj {n m : Nat} (h : decimal n = decimal m) : n = m := by
   have := congrArg undecimal h
